@@ -153,6 +153,17 @@ theorem rollout_carry (γ : α) (V : O → α) (f : A → A) (c : Carry O) (xs :
     (collectRollout γ V f c xs).carry = (xs.getLast?.map carryOf).getD c := by
   simp [collectRollout, Lemmas.collectLoop_carry]
 
+omit [Add α] [Mul α] in
+/-- **`set_env` / `load(env=…)` restart the carried state.** They forget the last observation (`_last_obs = None`); the next
+`learn()` call then resets the environment whatever `reset_num_timesteps` says, and BOTH carried pieces restart together:
+the observation is the reset observation and every episode-start flag is true — exactly the state a resetting `learn()`
+produces from any previous state `c`. (The driver's `set_env` operation is this forgetting.) -/
+theorem set_env_restarts_carry (c : Carry O) (r : Bool) (obs : Nat → O) :
+    setupLearn (none : Option (Carry O)) r obs = fresh obs ∧
+    setupLearn (none : Option (Carry O)) r obs = setupLearn (some c) true obs ∧
+    (∀ e, (setupLearn (none : Option (Carry O)) r obs).lastStarts e = true) := by
+  simp [setupLearn, fresh]
+
 /-- **State carry, all histories.** Take any sequence of `learn()` calls that do not reset the environment
 and rollouts (of any lengths, each with its own policy). The (observation, episode-start) pairs stored in
 the buffer rows, read one after the other across all rollouts, are the initial state followed by what each
